@@ -79,3 +79,5 @@ func verifLiveThreads() int        { panic("intrinsic") } // goroutines (other t
 func verifFireTimers() int         { panic("intrinsic") } // fire every armed timer (each in its own goroutine); returns how many
 
 func verifDocSlotAny(db *sql.DB, i int) verifDoc { panic("intrinsic") } // slot i including spare slots (post-state scans)
+
+func verifDoneClosed(ch chan struct{}) bool { panic("intrinsic") } // channel has been closed
